@@ -16,6 +16,8 @@ func main() {
 		runSmoke()
 	case "C02":
 		runC02()
+	case "C06":
+		runC06()
 	default:
 		fmt.Fprintln(os.Stderr, "unknown property", os.Args[1])
 		os.Exit(64)
